@@ -544,7 +544,7 @@ func (e *Engine) blockOnChan(ch *Chan) bool {
 	if e.th == nil || !e.job.Threads {
 		return false
 	}
-	e.blockUntilDaemon("chan receive", func() bool { return len(ch.Buf) > 0 || ch.Closed })
+	e.blockUntilDaemon("chan receive", func() bool { return len(ch.Buf) > 0 || ch.Closed || (ch.Ticker && e.ticks > 0) })
 	return true
 }
 
@@ -570,7 +570,7 @@ func (e *Engine) blockOnSelect(chans []*Chan) bool {
 	}
 	e.blockUntilDaemon("select", func() bool {
 		for _, c := range chans {
-			if c != nil && (len(c.Buf) > 0 || c.Closed) {
+			if c != nil && (len(c.Buf) > 0 || c.Closed || (c.Ticker && e.ticks > 0)) {
 				return true
 			}
 		}
